@@ -125,6 +125,19 @@ func genUUID(t *rapid.T, label string) string {
 	case 2:
 		return "00010203-0405-0607-0809-0a0b0c0d0e0f"
 	}
+	if k <= 5 {
+		// structured ids: mostly zero (or 0xff) bytes with a few others anywhere - low-numbered ids, ids that
+		// agree with the all-zero main id in one half, ids with a zero byte at any position
+		b := make([]byte, 16)
+		fill := rapid.SampledFrom([]byte{0, 0, 0xff}).Draw(t, label+"Fill")
+		for i := range b {
+			b[i] = fill
+		}
+		for n := rapid.IntRange(1, 3).Draw(t, label+"Marks"); n > 0; n-- {
+			b[rapid.IntRange(0, 15).Draw(t, label+"Pos")] = rapid.Byte().Draw(t, label+"Mark")
+		}
+		return uuidString(b)
+	}
 	b := rapid.SliceOfN(rapid.Byte(), 16, 16).Draw(t, label)
 	return uuidString(b)
 }
